@@ -33,6 +33,10 @@ ENG_A = "simio"
 ENG_B = "simnet"
 
 CHECKS = {
+ "C33": dict(level="exploration", engine=ENG_B, design="DESIGN.md §4 C33",
+   technique="deterministic multi-node simulation at the libc socket seam: the unmodified storescu run(app) body (built from /repo/storescu/src by inclusion, arguments parsed by the tool's own clap definition, files on a per-worker sandbox file system) runs as a node connecting through an interposed connect() to a recording acceptor node with a seed-drawn acceptance policy; a seeded scheduler decides interleaving, send sizes, delivery segmentation and receive sizes; the recorded P-DATA stream is reassembled and every C-STORE message is checked against the file it names with an independent PS3.7/PS3.5 parser",
+   text="Seeded search over file sets (1..4 files; SOP classes incl. prefix-related UIDs CT/Enhanced CT, MR/Enhanced MR; implicit/explicit LE, explicit BE, deflated, RLE/JPEG with opaque fragments, RLE with a decodable 8/16-bit monochrome image; a non-DICOM file) x tool options (never-transcode, fail-first, maximum PDU length, address form) x acceptor policies (accept all, per-class accept/reject, per-context coin, implicit only; reversed result order; advertised maximum; failure/warning/cancel/pending response status) x network schedules. Oracles: every message is command-then-data on one context with fragments not interleaved; it names one file of the set, at most once; its context was accepted and its proposed abstract syntax equals the file's SOP class, which is also the command's Affected SOP Class UID; the data bytes parse in the accepted transfer syntax (after inflating) to the file's data set: identical for the file's own syntax, re-encoded otherwise (decoded pixels for the RLE image); a file with undecodable encapsulated pixel data is never sent in another syntax.",
+   note="Only the synchronous mode is simulated: run_async() re-parses the process arguments itself (App::parse()) and cannot be given per-run arguments in-process; both modes share check_presentation_contexts and into_ts. --ignore-sop-class is not used. Completeness (every sendable file is sent) is not demanded by the property and only recorded as a probe. The check was written after the seeded change C33-sop-class-prefix-match had been read (see DESIGN.md)."),
  "C32": dict(level="exploration", engine=ENG_B, design="DESIGN.md §4 C32",
    technique="deterministic multi-node simulation at the libc socket and open() seams: the unmodified storescp per-connection bodies (run_store_sync / run_store_async, built from /repo/storescp/src by inclusion, arguments parsed by the tool's own clap definition) run as a node against a scripted C-STORE requestor node; a seeded scheduler decides interleaving, send sizes, delivery segmentation and receive sizes; file creations are observed at the interposed open() and on a per-worker sandbox file system; stored files are parsed by an independent PS3.10/PS3.5 parser and compared with the data set sent",
    text="Seeded search over tool options (maximum PDU length, strict, promiscuous, uncompressed-only, sync/async) x association requests x 1..3 C-STORE requests with generated data sets in the negotiated transfer syntax (implicit/explicit LE, explicit BE, deflated, encapsulated RLE/JPEG fragments), Affected SOP Instance UID texts (plain, parent references, separators into an existing sub-directory, absolute paths reachable and unreachable, dot names, over-long) and fragmentations (one or many data fragments, empty fragments, an empty last fragment alone in its own PDU, several PDVs per PDU, an interleaved C-ECHO) x network schedules. Oracles: every path the node asks the OS to create and every file found afterwards lies directly inside the output directory; every complete valid request is answered with success carrying its message id and instance UID; for each acknowledged store a file directly in the output directory has a meta group naming the negotiated transfer syntax and the data set's SOP class/instance and a data set that parses to the one sent.",
